@@ -128,7 +128,16 @@ def _sym_task(pid, tier, seed, name, opts):
                     try:
                         d["lhs_at_sample"] = core.evalf(ob.lhs, env, pr.sqrt_defs, memo)
                         d["rhs_at_sample"] = core.evalf(ob.rhs, env, pr.sqrt_defs, memo)
-                        vs = symx.term_vars([ob.lhs, ob.rhs])
+                        vs = set(symx.term_vars([ob.lhs, ob.rhs]))
+                        sqd = {s_.decl().name(): k_ for k_, s_ in pr.sqrt_defs}
+                        todo = [n for n in vs if n in sqd]
+                        while todo:  # roots are defined by terms that may contain backend-fresh values
+                            n = todo.pop()
+                            for m_ in symx.term_vars([sqd[n]]):
+                                if m_ not in vs:
+                                    vs.add(m_)
+                                    if m_ in sqd:
+                                        todo.append(m_)
                         d["uses_fresh"] = any(("!" in n and not n.startswith("sqrt!") and not n.startswith("const!")) for n in vs)
                     except Exception as e:  # noqa: BLE001
                         d["evalf_error"] = str(e)[:100]
